@@ -156,7 +156,11 @@ def mutate(s, m):
         E[0]["abstract"] = False
         E[1]["supers"] = [E[0]["name"]]
     elif cl == "inherited_redeclared":
-        E[1]["attrs"].append({"name": "a1", "ty": {"base": "INTEGER", "agg": "none", "lo": 0, "hi": 0, "uniq": False, "optelem": False}, "opt": False})
+        INT = {"base": "INTEGER", "agg": "none", "lo": 0, "hi": 0, "uniq": False, "optelem": False}
+        if m.get("pos") == "derive":
+            E[1]["derive"] = E[1]["derive"] + [{"name": "a1", "ty": INT, "expr": "1"}]
+        else:
+            E[at - 1]["attrs"].append({"name": "a1", "ty": INT, "opt": False})
     elif cl == "select_cycle":
         pos = m.get("pos", "")
         use = "ENTITY eu;\n  item : s1;\nWHERE\n  wu : %s > 0;\nEND_ENTITY;\n"
